@@ -9,6 +9,7 @@
 //   ev late <i> <j>             the ribUpdate started for neighbour j runs only now, after the preceding `ev dead i j`
 //   ev clock <ms> | ev sync <i> <j> <s> | ev data|olddata <i> <j> <s> | ev hold <j> | ev sweep <i> <dead ms>
 //                               the sequence-number / liveness layer through the real handlers (see ProtoModel.v)
+//   ev nack|ftimeout <i> <j> <s>  the outstanding fetch of i for (j, s) fails;  rft <i> <j> <s> <0|1>: was it expressed again
 //   ev snap <j>                 store j's current advertisement;  ev deliver <i> <j>: i processes the stored one
 //   obs <i> <dirty 0|1|x> nb=<j,j,..|-> rib=<entry;entry..|-> adv=<d/nh/cost/other;..|-> ent=<d/cost/nh;..|->
 //        entry = d/nh1/l1/nh2/l2/dirty/h=c,h=c..      (everything sorted by key)
@@ -28,6 +29,7 @@ import (
 	"sort"
 	"strconv"
 	"strings"
+	"sync"
 	"testing"
 	"testing/synctest"
 	"time"
@@ -49,7 +51,20 @@ import (
 // ---------------------------------------------------------------------------------------------
 // fake engine: nothing is ever sent; management commands succeed
 // ---------------------------------------------------------------------------------------------
-type fakeEngine struct{ timer ndn.Timer }
+type fakeEngine struct {
+	timer   ndn.Timer
+	mu      sync.Mutex
+	fetches []*pendingFetch // advertisement fetches expressed by the router (never answered unless the harness does)
+}
+
+type pendingFetch struct {
+	target enc.Name
+	seq    uint64
+	cb     ndn.ExpressCallbackFunc
+}
+
+// engine of a router created by newRouter
+var engOf sync.Map
 
 func (e *fakeEngine) EngineTrait() ndn.Engine                           { return e }
 func (e *fakeEngine) Spec() ndn.Spec                                    { return spec.Spec{} }
@@ -59,7 +74,14 @@ func (e *fakeEngine) Stop() error                                       { return
 func (e *fakeEngine) IsRunning() bool                                   { return true }
 func (e *fakeEngine) AttachHandler(enc.Name, ndn.InterestHandler) error { return nil }
 func (e *fakeEngine) DetachHandler(enc.Name) error                      { return nil }
-func (e *fakeEngine) Express(*ndn.EncodedInterest, ndn.ExpressCallbackFunc) error {
+func (e *fakeEngine) Express(in *ndn.EncodedInterest, cb ndn.ExpressCallbackFunc) error {
+	name := in.FinalName
+	// /localhop/<router>/32=DV/32=ADV/seq=<s>
+	if len(name) > 4 && name[0].Equal(config.Localhop[0]) && name[len(name)-2].String() == "32=ADV" && cb != nil {
+		e.mu.Lock()
+		e.fetches = append(e.fetches, &pendingFetch{name[1 : len(name)-3].Clone(), name[len(name)-1].NumberVal(), cb})
+		e.mu.Unlock()
+	}
 	return nil
 }
 func (e *fakeEngine) RegisterRoute(enc.Name) error          { return nil }
@@ -150,10 +172,12 @@ func newRouter(name enc.Name) *dvp.Router {
 	cfg.Router = name.String()
 	cfg.AdvertisementSyncInterval_ms = 10000
 	cfg.RouterDeadInterval_ms = deadIntervalMs
-	r, err := dvp.NewRouter(cfg, &fakeEngine{timer: basic.NewTimer()})
+	eng := &fakeEngine{timer: basic.NewTimer()}
+	r, err := dvp.NewRouter(cfg, eng)
 	if err != nil {
 		panic(err)
 	}
+	engOf.Store(r, eng)
 	r.Vf18StartNfdc()
 	r.Vf18SelfInit()
 	return r
@@ -662,6 +686,52 @@ func (w *world) evData(i, j int, s uint64, old bool) {
 	w.obs(i, d)
 }
 
+// the outstanding advertisement fetch of i towards j fails (NACK: no route yet; or timeout): the real callback of
+// advertDataFetch runs; within its back-off the fetch must be expressed again
+func (w *world) evNack(i, j int, timeout bool) {
+	if w.rt[i] == nil {
+		return
+	}
+	v, ok := engOf.Load(w.rt[i])
+	if !ok {
+		return
+	}
+	eng := v.(*fakeEngine)
+	eng.mu.Lock()
+	var pf *pendingFetch
+	idx := -1
+	for k, f := range eng.fetches {
+		if f.target.Equal(w.names[j]) {
+			pf, idx = f, k
+		}
+	}
+	eng.mu.Unlock()
+	if pf == nil {
+		return
+	}
+	kind := "nack"
+	res := ndn.ExpressCallbackArgs{Result: ndn.InterestResultNack, NackReason: 150}
+	if timeout {
+		kind = "ftimeout"
+		res = ndn.ExpressCallbackArgs{Result: ndn.InterestResultTimeout}
+	}
+	fmt.Fprintf(w.w, "ev %s %s %s %d\n", kind, w.id(w.hash[i]), w.id(w.hash[j]), pf.seq)
+	w.evc++
+	pf.cb(res)
+	synctest.Wait()
+	time.Sleep(2500 * time.Millisecond) // longer than either back-off (2 s after a NACK, 100 ms after a timeout)
+	synctest.Wait()
+	again := 0
+	eng.mu.Lock()
+	for k, f := range eng.fetches {
+		if k > idx && f.target.Equal(w.names[j]) && f.seq == pf.seq {
+			again = 1
+		}
+	}
+	eng.mu.Unlock()
+	fmt.Fprintf(w.w, "rft %s %s %d %d\n", w.id(w.hash[i]), w.id(w.hash[j]), pf.seq, again)
+}
+
 // the advertisement last stored for j goes "in flight" (its Data is delayed)
 func (w *world) evHold(j int) {
 	if sn, ok := w.slots[j]; ok {
@@ -721,6 +791,9 @@ func (w *world) seqScenario() {
 	}
 	s1 := w.mseq[[2]int{i, j}] + 1 + uint64(w.r.Intn(3))
 	w.evSync(i, j, s1)
+	if w.r.Intn(2) == 0 {
+		w.evNack(i, j, w.r.Intn(3) == 0) // the first fetch fails: it must be retried
+	}
 	w.evSnap(j)
 	w.evHold(j) // the Data for s1 is in flight
 	if w.r.Intn(2) == 0 {
@@ -1198,9 +1271,16 @@ func runCase(t *testing.T, out *bufio.Writer, r *rand.Rand, k int, kind string, 
 	fail := ""
 	synctest.Test(t, func(t *testing.T) {
 		w := &world{t: t, w: out, r: r, n: n, byHash: map[uint64]int{}, slots: map[int]snapshot{}, pending: map[[2]int]bool{}, need: map[[2]int]bool{}, mseq: map[[2]int]uint64{}, held: map[int]snapshot{}}
-		// random router names: the hash order (the tie-break key) is unrelated to the index order
+		// random router names: the hash order (the tie-break key) is unrelated to the index order.
+		// In a third of the cases the names are HIERARCHICAL: a router's name is a proper prefix of another's
+		// (/net/r1 and /net/r1/c2, a legal configuration).
+		nested := r.Intn(3) == 0
 		for len(w.names) < n {
-			nm, _ := enc.NameFromStr(fmt.Sprintf("/net/r%d", r.Intn(1000000)))
+			str := fmt.Sprintf("/net/r%d", r.Intn(1000000))
+			if nested && len(w.names) > 0 && r.Intn(4) != 0 {
+				str = w.names[r.Intn(len(w.names))].String() + fmt.Sprintf("/c%d", r.Intn(1000))
+			}
+			nm, _ := enc.NameFromStr(str)
 			if _, dup := w.byHash[nm.Hash()]; dup || nm.Hash() < 1000 {
 				continue
 			}
@@ -1555,6 +1635,8 @@ func TestReplay(t *testing.T) {
 					w.evData(idx(p[2]), idx(p[3]), sq, p[1] == "olddata")
 				case "hold":
 					w.evHold(idx(p[2]))
+				case "nack", "ftimeout":
+					w.evNack(idx(p[2]), idx(p[3]), p[1] == "ftimeout")
 				case "sweep":
 					w.evSweep(idx(p[2]))
 				case "snap":
